@@ -17,6 +17,7 @@ inductive Cond where
   | isEmpty (p : Path)                -- len(p) == 0
   | sameLine (p q : Path)             -- fset.Position(p.Pos()).Line == fset.Position(q.End()).Line
   | isKind (p : Path) (k : String)    -- `_, ok := p.(*ast.k)` … ok
+  | sameTok (p : Path) (a : String) (q : Path) (b : String)   -- fset.Position(p.a).Line == fset.Position(q.b).Line (token.Pos fields)
   | tt
   | and (a b : Cond)
   | or (a b : Cond)
@@ -34,6 +35,9 @@ inductive Act where
   | each (p : Path) (v : String) (body : List Act)             -- for _, v := range p { body }
   | tswitch (p : Path) (arms : List (List String × List Act))   -- switch p.(type); `default` is the last arm, named ["*"]
   | cont                              -- continue (leaves the element of the outermost loop)
+  | ctl (p : Path)                    -- t.processControlStatements(p, fset)
+  | globalSpecs (p : Path)            -- t.processGlobalValueSpecs(p, fset)
+  | globalLits (p : Path)             -- t.processGlobalFunctionLit(p, fset)
 
 /-- one walker: `for _, x := range list { if x == nil { continue }; switch x.(type) { arms… } }`
     (`default` is the last arm, named `["*"]`) -/
